@@ -103,7 +103,11 @@ def baseline(rng, i):
         SC.add_stop(rng, spec)
     elif kind == 5:
         dt = spec['schedule'][0]['dt']
-        spec['schedule'].append({'op': 'run', 'dt': dict(dt), 'T': GEN.mulq(dt, rng.randint(3, 15))})
+        n2 = rng.randint(3, 15)
+        spec['schedule'].append({'op': 'run', 'dt': dict(dt), 'T': GEN.mulq(dt, n2)})
+        if rng.random() < 0.6:
+            # timer windows reaching into the continuation (whose step the variants write in another unit)
+            C12.half_step_rules(rng, spec, n + n2)
     return spec
 
 
